@@ -251,9 +251,14 @@ int main(int argc, char ** argv)
     for (k = 0; k < npre; k++)
     {
         int r0;
+        /* "@del:" = delete this program right after compiling it (later diagnostics must not reach into it);
+           "@file:<path>" = nev_compile_file instead of nev_compile_str */
+        const char * ps = pre[k]; int del = 0;
+        if (strncmp(ps, "@del:", 5) == 0) { del = 1; ps += 5; }
         preprog[k] = program_new();
-        r0 = nev_compile_str(pre[k], preprog[k]);
+        r0 = strncmp(ps, "@file:", 6) == 0 ? nev_compile_file(ps + 6, preprog[k]) : nev_compile_str(ps, preprog[k]);
         if (rf) fprintf(rf, "precompile %d %d msgs=%u\n", k, r0, preprog[k]->msg_count);
+        if (del) { program_delete(preprog[k]); preprog[k] = NULL; }
     }
     program * prog = program_new();
     fn_count = 0;
@@ -266,7 +271,11 @@ int main(int argc, char ** argv)
         fprintf(rf, "compile %d msgs=%u\n", ret, prog->msg_count);
         for (q = 0; q < prog->msg_count; q++) { unsigned char * t = (unsigned char *)prog->msg_array[q]; fprintf(rf, "msg "); for (; t && *t; t++) fprintf(rf, "%02x", *t); fprintf(rf, "\n"); }
     }
-    if (ret != 0) { finish("compile-fail", ret); program_delete(prog); return 3; }
+    if (ret != 0)
+    {
+        for (k = 0; k < npre; k++) if (preprog[k] != NULL && rf) fprintf(rf, "premsgs %d %u\n", k, preprog[k]->msg_count);
+        finish("compile-fail", ret); program_delete(prog); return 3;
+    }
     if (dumpf) { FILE * df = fopen(dumpf, "w"); dump_module(df, prog); fclose(df); }
     {
     /* call list: either -c "entry:a,b;entry:c" or `execs` times (entry, argv) */
@@ -339,7 +348,7 @@ int main(int argc, char ** argv)
     never_verif_step_hook = NULL;
     if (machine) vm_delete(machine);
     if (!bdump) program_delete(prog);
-    for (k = 0; k < npre; k++) program_delete(preprog[k]);
+    for (k = 0; k < npre; k++) { if (preprog[k] != NULL) { if (rf) fprintf(rf, "premsgs %d %u\n", k, preprog[k]->msg_count); program_delete(preprog[k]); } }
     if (tf) fclose(tf);
     if (rf) fclose(rf);
     return ret ? 1 : 0;
